@@ -68,7 +68,7 @@ class CatAdapter:
     """cat.Arrow: objects are one-atom types, arrows are diagrams with all offsets zero."""
     cls = "cat"
     ATOMS = {1: "x", 2: "y", 3: "z", 4: "w"}
-    OPS = {"gen", "ctor", "retype", "then", "thenSelf", "dagger", "slice", "index"}
+    OPS = {"gen", "ctor", "retype", "then", "thenSelf", "dagger", "slice", "rslice", "index"}
 
     def __init__(self):
         from discopy import cat
